@@ -42,7 +42,7 @@ dropping the caller's lifetime-erased job until the notify_all is done) -/
 def pcHoldsCv (s : State) (w : Nat) (b : Nat) : Pc → Bool
   | .rqNotifyAcq _ todo _ _ | .rqNotify _ todo _ _ | .rqNotifyRel _ todo _ _ => todo.contains w || b == w
   | .sbPrune _ | .ret | .dead | .panicked => false
-  | .jobDropNotify j _ | .jobDrop j _ =>
+  | .jobDropNotify j _ _ | .jobDrop j _ _ =>
       (match s.jobs[j]? with
        | some jb => (match jb.kind with | .erasedBg o _ => o == w | _ => false)
        | none => false) || b == w
@@ -101,6 +101,7 @@ def State.gateReady (s : State) (g : Nat) (op : Nat) : Bool :=
 
 def JobKind.op : JobKind → Option Nat
   | .plain op => some op
+  | .immediate _ (.user op) => some op
   | .erasedDrain _ (.user op) => some op
   | .erasedBg _ (.user op) => some op
   | .fut op _ _ => some op
@@ -129,6 +130,24 @@ def State.dequeue (s : State) (q a : Nat) : State × Option Nat :=
       | [] => (s, none)
     else (s, none)
   | none => (s, none)
+
+/-- the waker a job's poll is given -/
+def ctxWaker (t : Nat) : Ctx → Waker
+  | .caller q => .thread q t
+  | .pool _ q => .queue q
+  | .task _ l _ => .latch l
+
+/-- where control goes after the job returned Ready and was dropped -/
+def ctxReady (k : Pc) : Ctx → Pc
+  | .caller _ => k
+  | .pool p q => .pdDequeue p q
+  | .task f _ q => .dqCheck f q
+
+/-- where control goes after the job returned Pending -/
+def ctxPending (j : Nat) (k : Pc) : Ctx → Pc
+  | .caller q => .rjPending q j k
+  | .pool p q => .pdRequeue p q j
+  | .task f l q => .dqRequeue f j l q
 
 /-! ### the step function -/
 
@@ -302,7 +321,10 @@ def stepAct (s : State) (a : Nat) : Option (State × Obs) :=
         let r := syncDecide v.state v.jobs.isEmpty
         let s1 := s.setQ q { v with state := r.1 }
         match r.2 with
-        | .immediate => some ((s1.setHolder q (some a)).goto a (.begin b (.siIdle q)), .csQ q)
+        | .immediate =>
+          let j := s1.jobs.length
+          let s2 := { s1 with jobs := s1.jobs ++ [({ q := q, kind := .immediate a b, ph := .held a, begun := true, ended := false, reg := none } : Job)] }
+          some ((s2.setHolder q (some a)).goto a (.begin b (.siIdle q j)), .csQ q)
         | .drain => some ((s1.setHolder q (some a)).goto a (.sdPush q b), .csQ q)
         | .background => some (s1.goto a (.sbReg q b), .csQ q)
         | _ => some (s1.goto a .panicked, .csQ q)
@@ -313,11 +335,17 @@ def stepAct (s : State) (a : Nat) : Option (State × Obs) :=
         let r := trySyncDecide v.state v.jobs.isEmpty
         let s1 := s.setQ q { v with state := r.1 }
         match r.2 with
-        | .immediate => some ((s1.setHolder q (some a)).goto a (.begin b (.siIdle q)), .csQ q)
+        | .immediate =>
+          let j := s1.jobs.length
+          let s2 := { s1 with jobs := s1.jobs ++ [({ q := q, kind := .immediate a b, ph := .held a, begun := true, ended := false, reg := none } : Job)] }
+          some ((s2.setHolder q (some a)).goto a (.begin b (.siIdle q j)), .csQ q)
         | .busy => some ((s1.setAct a { act with pc := .ret, result := some 1 }), .csQ q)
         | _ => some (s1.goto a .panicked, .csQ q)
-  | .siIdle q =>
-      some (((s.setQState q .idle).setHolder q none).goto a (.rqCs q .ret), .csQ q)
+  | .siIdle q j =>
+      match s.jobs[j]? with
+      | none => none
+      | some jb =>
+        some ((((s.setJob j { jb with ended := true, ph := .done }).setQState q .idle).setHolder q none).goto a (.rqCs q .ret), .csQ q)
   | .sdPush q b =>
       let (s1, j) := s.newJob q (.erasedDrain a b)
       some ((s1.pushBack q j).goto a (.sdCheck q j), .csQ q)
@@ -380,7 +408,7 @@ def stepAct (s : State) (a : Nat) : Option (State × Obs) :=
   | .rjDequeue q k =>
       let (s1, got) := s.dequeue q a
       match got with
-      | some j => some (s1.goto a (.jobStart j (.thread q t) k (.rjPending q j k)), .csQ q)
+      | some j => some (s1.goto a (.jobStart j (.caller q) k), .csQ q)
       | none => some (s1.goto a k, .csQ q)
   | .rjPending q j k =>
       match s.qs[q]? with
@@ -390,11 +418,11 @@ def stepAct (s : State) (a : Nat) : Option (State × Obs) :=
         let s1 := s.setQ q { v with state := r.1 }
         match r.2 with
         | .park => some (s1.goto a (.rjParkCheck q j k), .csQ q)
-        | .continue => some (s1.goto a (.jobStart j (.thread q t) k (.rjPending q j k)), .csQ q)
+        | .continue => some (s1.goto a (.jobStart j (.caller q) k), .csQ q)
         | .panic => some (s1.goto a .panicked, .csQ q)
   | .rjParkCheck q j k =>
       match parkCheck (s.qState q) with
-      | .continue => some (s.goto a (.jobStart j (.thread q t) k (.rjPending q j k)), .csQ q)
+      | .continue => some (s.goto a (.jobStart j (.caller q) k), .csQ q)
       | .park => some (s.goto a (.rjPark q j k), .csQ q)
       | .panic => some (s.goto a .panicked, .csQ q)
   | .rjPark q j k => some (s.goto a (.rjParked q j k), .park)
@@ -403,16 +431,17 @@ def stepAct (s : State) (a : Nat) : Option (State × Obs) :=
         some (({ s with parkToken := s.parkToken.filter (· != t) }).goto a (.rjParkCheck q j k), .unparked)
       else none
   -- ---------------------------------------------------------------- running / polling a job
-  | .jobStart j w kr kp =>
+  | .jobStart j c k =>
       match s.jobs[j]? with
       | none => none
       | some jb =>
         match jb.kind with
-        | .plain op => some ((s.setJob j { jb with begun := true }).goto a (.begin (.user op) (.jobBodyDone j kr)), .silent)
-        | .erasedDrain _ b => some ((s.setJob j { jb with begun := true }).goto a (.begin b (.jobBodyDone j kr)), .silent)
-        | .erasedBg _ b => some ((s.setJob j { jb with begun := true }).goto a (.begin b (.jobBodyDone j kr)), .silent)
+        | .plain op => some ((s.setJob j { jb with begun := true }).goto a (.begin (.user op) (.jobBodyDone j c k)), .silent)
+        | .immediate _ _ => none
+        | .erasedDrain _ b => some ((s.setJob j { jb with begun := true }).goto a (.begin b (.jobBodyDone j c k)), .silent)
+        | .erasedBg _ b => some ((s.setJob j { jb with begun := true }).goto a (.begin b (.jobBodyDone j c k)), .silent)
         | .fut op gate _ =>
-          if jb.begun then some (s.goto a (.jobAwait j w kr kp), .silent)
+          if jb.begun then some (s.goto a (.jobAwait j c k), .silent)
           else
             -- the closure is invoked and the gate future is created (registering with a closed gate)
             let s1 := s.setJob j { jb with begun := true }
@@ -421,9 +450,9 @@ def stepAct (s : State) (a : Nat) : Option (State × Obs) :=
                 | some gt => if gt.isOpen then s1 else s1.setGate g { gt with waiting := gt.waiting ++ [op] }
                 | none => s1
               | none => s1
-            some (s2.goto a (.jobAwait j w kr kp), .beg op)
-        | .after _ _ _ => some (s.goto a (.jobAwait j w kr kp), .silent)
-  | .jobAwait j w kr kp =>
+            some (s2.goto a (.jobAwait j c k), .beg op)
+        | .after _ _ _ => some (s.goto a (.jobAwait j c k), .silent)
+  | .jobAwait j c k =>
       match s.jobs[j]? with
       | none => none
       | some jb =>
@@ -434,25 +463,25 @@ def stepAct (s : State) (a : Nat) : Option (State × Obs) :=
           | _ => true
         if ready then
           match jb.kind with
-          | .after op _ _ => some (s.goto a (.begin (.user op) (.jobBodyDone j kr)), .silent)
-          | _ => some (s.goto a (.jobEnd j kr), .silent)
-        else some ((s.setJob j { jb with reg := some w }).goto a kp, .silent)
-  | .jobBodyDone j kr =>
+          | .after op _ _ => some (s.goto a (.begin (.user op) (.jobBodyDone j c k)), .silent)
+          | _ => some (s.goto a (.jobEnd j c k), .silent)
+        else some ((s.setJob j { jb with reg := some (ctxWaker t c) }).goto a (ctxPending j k c), .silent)
+  | .jobBodyDone j c k =>
       match s.jobs[j]? with
       | none => none
       | some jb =>
         match jb.kind with
-        | .erasedDrain owner _ => some ((s.setJob j { jb with ended := true }).goto a (.jobDrop j kr), .notify1 owner)
-        | .after _ _ _ => some ((s.setJob j { jb with ended := true }).goto a (.jobSignal j kr), .silent)
-        | _ => some ((s.setJob j { jb with ended := true }).goto a (.jobDrop j kr), .silent)
-  | .jobEnd j kr =>
+        | .erasedDrain owner _ => some ((s.setJob j { jb with ended := true }).goto a (.jobDrop j c k), .notify1 owner)
+        | .after _ _ _ => some ((s.setJob j { jb with ended := true }).goto a (.jobSignal j c k), .silent)
+        | _ => some ((s.setJob j { jb with ended := true }).goto a (.jobDrop j c k), .silent)
+  | .jobEnd j c k =>
       match s.jobs[j]? with
       | none => none
       | some jb =>
         match jb.kind with
-        | .fut op _ _ => some ((s.setJob j { jb with ended := true }).goto a (.jobSignal j kr), .end_ op)
+        | .fut op _ _ => some ((s.setJob j { jb with ended := true }).goto a (.jobSignal j c k), .end_ op)
         | _ => none
-  | .jobSignal j kr =>
+  | .jobSignal j c k =>
       match s.jobs[j]? with
       | none => none
       | some jb =>
@@ -465,9 +494,9 @@ def stepAct (s : State) (a : Nat) : Option (State × Obs) :=
           | some fu =>
             let s1 := s.setFut r { fu with res := .ok, waker := none }
             match fu.waker with
-            | some w => some (s1.goto a (.waking [w] (.jobSigDrop j kr)), .csR r)
-            | none => some (s1.goto a (.jobSigDrop j kr), .csR r)
-  | .jobSigDrop j kr =>
+            | some w => some (s1.goto a (.waking [w] (.jobSigDrop j c k)), .csR r)
+            | none => some (s1.goto a (.jobSigDrop j c k), .csR r)
+  | .jobSigDrop j c k =>
       match s.jobs[j]? with
       | none => none
       | some jb =>
@@ -482,10 +511,10 @@ def stepAct (s : State) (a : Nat) : Option (State × Obs) :=
             if fu.res == .none then
               let s1 := s.setFut r { fu with res := .canceled, waker := none }
               match fu.waker with
-              | some w => some (s1.goto a (.waking [w] (.jobDrop j kr)), .csR r)
-              | none => some (s1.goto a (.jobDrop j kr), .csR r)
-            else some (s.goto a (.jobDrop j kr), .csR r)
-  | .jobDrop j kr =>
+              | some w => some (s1.goto a (.waking [w] (.jobDrop j c k)), .csR r)
+              | none => some (s1.goto a (.jobDrop j c k), .csR r)
+            else some (s.goto a (.jobDrop j c k), .csR r)
+  | .jobDrop j c k =>
       match s.jobs[j]? with
       | none => none
       | some jb =>
@@ -493,14 +522,14 @@ def stepAct (s : State) (a : Nat) : Option (State × Obs) :=
         match jb.kind with
         | .erasedBg owner _ =>
           if s.readyHeld owner then none
-          else some (({ s1 with ready := owner :: s1.ready }).goto a (.jobDropNotify j kr), .csG owner)
-        | _ => some (s1.goto a kr, .silent)
-  | .jobDropNotify j kr =>
+          else some (({ s1 with ready := owner :: s1.ready }).goto a (.jobDropNotify j c k), .csG owner)
+        | _ => some (s1.goto a (ctxReady k c), .silent)
+  | .jobDropNotify j c k =>
       match s.jobs[j]? with
       | none => none
       | some jb =>
         match jb.kind with
-        | .erasedBg owner _ => some ((s.notify owner).goto a kr, .notifyAll owner)
+        | .erasedBg owner _ => some ((s.notify owner).goto a (ctxReady k c), .notifyAll owner)
         | _ => none
   -- ---------------------------------------------------------------- pool thread
   | .ptRecv p => some (s.goto a (.ptRecvd p), .recv p)
@@ -541,7 +570,7 @@ def stepAct (s : State) (a : Nat) : Option (State × Obs) :=
   | .pdDequeue p q =>
       let (s1, got) := s.dequeue q a
       match got with
-      | some j => some (s1.goto a (.jobStart j (.queue q) (.pdDequeue p q) (.pdRequeue p q j)), .csQ q)
+      | some j => some (s1.goto a (.jobStart j (.pool p q) .dead), .csQ q)
       | none => some (s1.goto a (.pdExit p q), .csQ q)
   | .pdRequeue p q j => some (((s.pushFront q j).setJobPh j .queued).goto a (.pdPending p q), .csQ q)
   | .pdPending p q =>
@@ -575,7 +604,7 @@ def stepAct (s : State) (a : Nat) : Option (State × Obs) :=
             let s1 := s.setQ fu.q { v with state := r.1 }
             let next : Pc := match r.2.1 with
               | .wait => .pfBlocked f
-              | .drain => .dqCheck f
+              | .drain => .dqCheck f fu.q
               | .panic => .panicked
             let s2 := if r.2.1 == .drain then s1.setHolder fu.q (some a) else s1
             some (s2.goto a (.pfPollRel f next), .csQ fu.q)
@@ -583,56 +612,44 @@ def stepAct (s : State) (a : Nat) : Option (State × Obs) :=
       match s.futs[f]? with
       | none => none
       | some fu =>
-        let store := match next with | .dqCheck _ => false | _ => true
+        let store := match next with | .dqCheck _ _ => false | _ => true
         let s1 := if store then s.setFut f { fu with waker := some (.task t) } else s
         some (s1.goto a next, .csR f)
   | .pfBlocked f =>
       if s.taskWoken.contains t then some (({ s with taskWoken := s.taskWoken.filter (· != t) }).goto a (.pfPoll f), .silent) else none
-  | .dqCheck f =>
+  | .dqCheck f q =>
       match s.futs[f]? with
       | none => none
       | some fu =>
         if fu.res == .ok || fu.res == .canceled then
-          some ((s.setFut f { fu with res := .returned }).setAct a { act with pc := .dqIdle f, result := some (if fu.res == .ok then 0 else 2) }, .csR f)
-        else some (s.goto a (.dqDequeue f), .csR f)
-  | .dqDequeue f =>
-      match s.futs[f]? with
-      | none => none
-      | some fu =>
-        let (s1, got) := s.dequeue fu.q a
-        match got with
-        | some j =>
-          let l := s1.latches.length
-          let s2 := { s1 with latches := s1.latches ++ [(Latch.notWoken, none)] }
-          some (s2.goto a (.jobStart j (.latch l) (.dqCheck f) (.dqRequeue f j l)), .csQ fu.q)
-        | none => some (s1.goto a (.dqStore2 f), .csQ fu.q)
-  | .dqRequeue f j l =>
-      match s.futs[f]? with
-      | none => none
-      | some fu => some (((s.pushFront fu.q j).setJobPh j .queued).goto a (.dqCheck2 f l), .csQ fu.q)
-  | .dqCheck2 f l =>
+          some ((s.setFut f { fu with res := .returned }).setAct a { act with pc := .dqIdle f q, result := some (if fu.res == .ok then 0 else 2) }, .csR f)
+        else some (s.goto a (.dqDequeue f q), .csR f)
+  | .dqDequeue f q =>
+      let (s1, got) := s.dequeue q a
+      match got with
+      | some j =>
+        let l := s1.latches.length
+        let s2 := { s1 with latches := s1.latches ++ [(Latch.notWoken, none)] }
+        some (s2.goto a (.jobStart j (.task f l q) .dead), .csQ q)
+      | none => some (s1.goto a (.dqStore2 f q), .csQ q)
+  | .dqRequeue f j l q => some (((s.pushFront q j).setJobPh j .queued).goto a (.dqCheck2 f l q), .csQ q)
+  | .dqCheck2 f l q =>
       match s.futs[f]? with
       | none => none
       | some fu =>
         if fu.res == .ok || fu.res == .canceled then
-          some ((s.setFut f { fu with res := .returned }).setAct a { act with pc := .dqSetWfw f l, result := some (if fu.res == .ok then 0 else 2) }, .csR f)
-        else some (s.goto a (.dqStore f l), .csR f)
-  | .dqSetWfw f l =>
+          some ((s.setFut f { fu with res := .returned }).setAct a { act with pc := .dqSetWfw f l q, result := some (if fu.res == .ok then 0 else 2) }, .csR f)
+        else some (s.goto a (.dqStore f l q), .csR f)
+  | .dqSetWfw f l q =>
+      some (((s.setQState q .waitingForWake).setHolder q none).goto a (.dqWakeWith f l (.queue q) .ret), .csQ q)
+  | .dqStore f l q =>
       match s.futs[f]? with
       | none => none
-      | some fu =>
-        some (((s.setQState fu.q .waitingForWake).setHolder fu.q none).goto a (.dqWakeWith f l (.queue fu.q) .ret), .csQ fu.q)
-  | .dqStore f l =>
-      match s.futs[f]? with
-      | none => none
-      | some fu => some ((s.setFut f { fu with waker := some (.task t) }).goto a (.dqSetWfp f l), .csR f)
-  | .dqSetWfp f l =>
-      match s.futs[f]? with
-      | none => none
-      | some fu =>
-        let d := s.doubles.length
-        let s1 := { s with doubles := s.doubles ++ [some (Waker.queue fu.q, Waker.task t)] }
-        some (((s1.setQState fu.q (.waitingForPoll f)).setHolder fu.q none).goto a (.dqWakeWith f l (.double d) (.pfBlocked f)), .csQ fu.q)
+      | some fu => some ((s.setFut f { fu with waker := some (.task t) }).goto a (.dqSetWfp f l q), .csR f)
+  | .dqSetWfp f l q =>
+      let d := s.doubles.length
+      let s1 := { s with doubles := s.doubles ++ [some (Waker.queue q, Waker.task t)] }
+      some (((s1.setQState q (.waitingForPoll f)).setHolder q none).goto a (.dqWakeWith f l (.double d) (.pfBlocked f)), .csQ q)
   | .dqWakeWith _ l w k =>
       match s.latches[l]? with
       | none => none
@@ -640,18 +657,12 @@ def stepAct (s : State) (a : Nat) : Option (State × Obs) :=
         let r := latchWakeWith st
         if r.2 then some (({ s with latches := s.latches.set l (r.1, none) }).goto a (.waking [w] k), .csW l)
         else some (({ s with latches := s.latches.set l (r.1, some w) }).goto a k, .csW l)
-  | .dqStore2 f =>
+  | .dqStore2 f q =>
       match s.futs[f]? with
       | none => none
-      | some fu => some ((s.setFut f { fu with waker := some (.task t) }).goto a (.dqIdle2 f), .csR f)
-  | .dqIdle2 f =>
-      match s.futs[f]? with
-      | none => none
-      | some fu => some (((s.setQState fu.q .idle).setHolder fu.q none).goto a (.rqCs fu.q (.pfBlocked f)), .csQ fu.q)
-  | .dqIdle f =>
-      match s.futs[f]? with
-      | none => none
-      | some fu => some (((s.setQState fu.q .idle).setHolder fu.q none).goto a (.rqCs fu.q .ret), .csQ fu.q)
+      | some fu => some ((s.setFut f { fu with waker := some (.task t) }).goto a (.dqIdle2 f q), .csR f)
+  | .dqIdle2 f q => some (((s.setQState q .idle).setHolder q none).goto a (.rqCs q (.pfBlocked f)), .csQ q)
+  | .dqIdle _ q => some (((s.setQState q .idle).setHolder q none).goto a (.rqCs q .ret), .csQ q)
   | .fsTake f =>
       match s.futs[f]? with
       | none => none
